@@ -482,6 +482,12 @@ func (s *Sim) stepInvariants() {
 		if (ev.Kind == "req" || ev.Kind == "dlv") && ev.Req != nil && ev.Req.Name != "" && ev.Req.Type != "query" {
 			s.mu.Lock()
 			skip := ev.Req.Type == "get" && ev.Req.Rf != 0
+			if u := s.tr.subs["event."+ev.Req.Name]; ev.Req.Type == "get" && (!ev.Req.EventSubbed || (u != nil && u.gen != ev.Req.SubGen)) {
+				// a get request made under an earlier subscription of the resource's
+				// events, or under none (a re-fetch sent after the eviction, see F-23):
+				// its answer goes to the entry that is gone, not to the current one
+				skip = true
+			}
 			s.mu.Unlock()
 			if !skip {
 				s.lastUse[ev.Req.Name] = time.Duration(ev.Time)
@@ -510,6 +516,9 @@ func (s *Sim) namesRequested() map[string]string {
 			if r.Type == "get" && r.Rf != 0 {
 				continue // a reset re-fetch holds no use count (see F-23)
 			}
+			if u := s.tr.subs["event."+r.Name]; r.Type == "get" && (!r.EventSubbed || (u != nil && u.gen != r.SubGen)) {
+				continue // made under an earlier event subscription, or none: as above
+			}
 			use[r.Name] = "request " + r.ID + " is pending"
 		}
 	}
@@ -526,6 +535,11 @@ func (s *Sim) namesHeld() map[string]string {
 		}
 		for rid, r := range c.Cache {
 			if r.Kind == 'e' || r.Deleted || r.Ambiguous {
+				continue
+			}
+			if !c.firmlyHeld(rid) {
+				// held only through a deleted resource or one with an error entry
+				// over its data: the gateway follows no references of those
 				continue
 			}
 			name, _ := splitRID(c.expandCID(rid))
